@@ -424,7 +424,7 @@ theorem testWalk_ok_info (e : Env) : ∀ (ls : List Loader) (s : Stream) (buf : 
         refine ⟨l, by simp, (l.test s.rewind true).st.rewind, hpw, ?_⟩
         simp only [testWalk, h0, hpw, if_true]
       · right
-        refine ⟨l, by simp, overlayOpt (l.test s.rewind true).title buf, hpw, ?_⟩
+        refine ⟨l, by simp, overlayOpt (l.test s.rewind true).title (if Gen.testBufInit = 2 then set0 buf else buf), hpw, ?_⟩
         simp only [testWalk, h0, hpw, if_true, if_false]
     · simp only [testWalk, h0, if_false] at h ⊢
       rcases testWalk_ok_info e ls _ _ info h with ⟨x, hx, st, h1, h2⟩ | ⟨x, hx, b, h1, h2⟩
